@@ -265,6 +265,9 @@ def client_body(world, cname, ops, is_main, others_done, S):
                 t0 = real_time.time()
                 while not cond() and real_time.time() - t0 < 20 and r.running:
                     real_time.sleep(0.0005)
+                if not cond():
+                    # a wall-clock wait is never a verdict: on a loaded machine the runner may simply be slow
+                    H.append(('drain-wait-timed-out', cname))
             H.append(('drain-ends', cname))
             call('stop')
             r.stop()
@@ -387,6 +390,9 @@ def check_history(acc, scn, H, world, verdict, S, wit):
                      % (u, dues[bad], in_drain[bad - 1], dues[bad - 1], list(zip(in_drain, dues))))
     drain_end = next((i for i, h in enumerate(H) if h[0] == 'drain-ends'), None)
     stopped_early = drain_end is not None and any(h[0] == 'call' and h[2] == 'stop' for h in H[:drain_end])
+    if any(h[0] == 'drain-wait-timed-out' for h in H):
+        acc.count('stress_progress_wait_timed_out')
+        stopped_early = True
     if verdict == 'done' and not scn['final'] and drain_end is not None and not stopped_early:
         missing = [u for u in queued if u not in cnt]
         if missing:
